@@ -1,4 +1,5 @@
 //! Verification harness for google/omaha-client: property-based testing and fuzzing.
+pub mod cupref;
 pub mod engine;
 pub mod props;
 pub mod tape;
